@@ -135,7 +135,7 @@ def query_params(e):
 
 def call_kwargs(c, return_utilities=True, variant=0):
     """variant 0: default call; 1: model passed pre-fitted with fit_*=False; 2: sample_weight given;
-    3: pre-fitted + utility_weight (where the strategy has these parameters); 4: X, y, candidates as nested lists."""
+    3: pre-fitted + utility_weight (where the strategy has these parameters); 4: X, y, candidates as nested lists; 5: Fortran order / int32 indices; 6: float32 features."""
     e = c.entry
     kw = dict(e.kwargs(c.ctx))
     qp = query_params(e)
@@ -161,6 +161,18 @@ def call_kwargs(c, return_utilities=True, variant=0):
     kw.update(X=c.X.copy(), y=c.y.copy(),
               candidates=None if c.candidates is None else c.candidates.copy(),
               batch_size=c.bs, return_utilities=return_utilities)
+    if variant == 5:
+        # memory layout / index dtype a caller may well have: Fortran-ordered X, int32 (or strided) index candidates
+        kw["X"] = np.asfortranarray(kw["X"])
+        if kw["candidates"] is not None and kw["candidates"].ndim == 1:
+            kw["candidates"] = kw["candidates"].astype(np.int32)
+        elif kw["candidates"] is not None:
+            kw["candidates"] = np.asfortranarray(kw["candidates"])
+    if variant == 6:
+        # single-precision features (the selection may differ from float64, validity may not)
+        kw["X"] = kw["X"].astype(np.float32)
+        if kw["candidates"] is not None and kw["candidates"].ndim == 2:
+            kw["candidates"] = kw["candidates"].astype(np.float32)
     if variant == 4:
         # array-like means array-like: nested Python lists for X, y and the candidates
         kw["X"], kw["y"] = kw["X"].tolist(), kw["y"].tolist()
